@@ -243,7 +243,7 @@ fn template() -> BoxedStrategy<(u8, Vec<GRec>)> {
         alg_id(),
         prop::collection::vec(prop::collection::vec(any::<u8>(), 0..120), 0..11),
         prop::option::of(name()),
-        prop::option::of(any::<u16>()),
+        prop::option::of(prop_oneof![2 => any::<u16>(), 2 => prop::sample::select(vec![123u16, 4460, 0, 1, 122, 124, 65535])]),
         any::<bool>(),
         prop::collection::vec(ignored_rec(), 0..2),
     )
